@@ -3,11 +3,29 @@ import dv, ls_common, fut_common as fc
 
 META = {
     'category': 'proof',
-    'technique': 'Coq invariants over all interleavings of a step-level model of FutureImplBase + lockstep replay on the real hooked code',
-    'text': 'see coq/Props/Properties_C18.v',
-    'note': 'Trusted: Coq kernel; futex semantics; harness/vsched.h; SC interleaving of atomics. No axioms.',
+    'technique': 'Coq inductive invariant over all interleavings of a step-level model of FutureImplBase (one step per atomic access / futex call; '
+                 'any number of threads, programs, schedules; spurious CAS failures and futex time-outs as oracle choices) + lockstep replay of '
+                 'generated programs x schedules on the real hooked code under a cooperative scheduler',
+    'text': 'Kernel-checked (Props/Properties_C18.v): C18_functor_runs_once (#executions + #CAS winners about to execute = [status<>NotStarted] <= 1; Ready => executed once, cell = result), '
+            'C18_get_after_ready (a result read happens only with status=Ready and returns the unique stored value / exception id), C18_refcount_safe (no access after dealloc; dealloc iff '
+            'refCount reached 0, at most once; refCount = #handles + [OnceFunction unreleased] + #continuation copies; every thread inside an operation holds a reference). '
+            'Tie: real Future objects driven by random per-thread programs (run/wait/get/wait_for/wait_until/is_ready/copy/drop/then/task-set wait) under random schedules '
+            '(hooks before every atomic access, futex served by the harness); trace, per-thread results, functor count and dispatch counts compared with the model evaluated in Coq; '
+            'the executable property (functor count <= 1 and = 1 when readiness was observed, every get = stored value, result destroyed at most once) is evaluated on the implementation output. '
+            'ImmediateInvoker futures are constructed on the unenrolled main thread (model: the runner executed alone) and then lockstepped; NewThreadInvoker futures run natively (history-level acceptance only).',
+    'note': 'Trusted: Coq kernel; futex semantics (compare-and-block, wake-all); harness/vsched.h; SC interleaving of atomics; Linux CompletionEventImpl. No axioms.',
 }
-ASSUMPTIONS = ['sequentially consistent interleaving of the atomic accesses (weak-memory reorderings not modelled)']
+
+ASSUMPTIONS = [
+    'sequentially consistent interleaving of the atomic accesses (weak-memory reorderings not modelled); futex = compare-and-block / wake-all, no spurious futex wake-ups (they only cause a re-load)',
+    'fewer than 2^32 references to one future (refCount_ is uint32): hypothesis wf_init bounds initial references + copy/then operations by B < 2^32',
+    'callers respect the Future contract encoded in wf_init: a thread only uses/copies/drops handles it owns; the OnceFunction is invoked at most once, by its owner',
+    'one antecedent future is modelled at step level; the futures returned by then() are separate objects whose scheduling is abstracted to a dispatch event (recording schedulable in the harness)',
+    'spurious compare_exchange_weak failures are covered by the theorems (oracle) but cannot be forced on x86 in the lockstep runs (spur=false there)',
+    'link identity = address: no then-chain link address is reused while a stale head pointer is held (justified in C19 notes: links are allocated only before Ready and freed only after)',
+    'NewThreadInvoker cases run natively without the scheduler (its thread is not enrolled): property evaluated on results only, no trace comparison',
+    'thread pools / TaskSet schedulables are out of scope here (covered by C01-C06); the task-set counter protocol is exercised through detail::TaskSetInterceptionInvoker with a fake task set',
+]
 
 
 def run(ctx, props_file=None, judge='judge_c18', imports=fc.IMPORTS, p_then=0.1, check='Model/C18Check.v'):
@@ -15,7 +33,7 @@ def run(ctx, props_file=None, judge='judge_c18', imports=fc.IMPORTS, p_then=0.1,
     exe = dv.build_harness('h_future', ['h_future.cpp'])
     ctx.phase('build')
     r = ctx.rng
-    n = 500 if ctx.quick else 8000
+    n = (160 if ctx.pid == 'C18' else 120) if ctx.quick else 4000
     cases = [fc.gen_case(r, p_then) for _ in range(n)]
     outs = ls_common.run_cases(exe, [fc.line_of(c) for c in cases])
     terms, kept, distinct = [], [], set()
@@ -29,7 +47,9 @@ def run(ctx, props_file=None, judge='judge_c18', imports=fc.IMPORTS, p_then=0.1,
             distinct.add(o.split('| status')[0])
     ctx.cov['evaluations'] += len(cases)
     ctx.cov['distinct_nontrivial'] += len(distinct)
-    verdicts = ls_common.judge_parallel(ctx, imports, judge, terms)
+    ctx.cov['rule'] = ('random programs (2-4 threads, 1-5 ops each; modes ls/im/nt) x random schedules (decision list), one fork per case; '
+                       'non-trivial = more steps than thread starts + 4 (or a native run); distinct = distinct (trace, results) strings')
+    verdicts = ls_common.judge_parallel(ctx, imports, judge, terms, shard_size=60)
     if verdicts is None:
         ctx.broken.append('correspondence L(%s): the model no longer evaluates' % ctx.pid)
         return
@@ -44,6 +64,19 @@ def run(ctx, props_file=None, judge='judge_c18', imports=fc.IMPORTS, p_then=0.1,
     ctx.cov['verdict_histogram'] = {'agree': hist.get(0, 0), 'differ_property_holds': hist.get(1, 0), 'property_fails': hist.get(2, 0)}
     ctx.cov['traces_validated_against_impl'] += sum(1 for v, (c, p, o) in zip(verdicts, kept) if v == 0 and c['mode'] != 'nt')
     ctx.cov['status_histogram'] = {k: sum(1 for _, p, _ in kept if p['status'] == v) for k, v in (('done', 0), ('deadlock', 1), ('budget', 2))}
+    # how the then() registrations in the lockstepped runs were timed relative to completion
+    tim = {'after_ready_direct': 0, 'pushed_then_recheck_saw_ready_and_drained': 0, 'pushed_before_ready': 0}
+    i_l0, i_disp, i_re, i_cl = (fc.SITES.index(x) for x in ('fut.then.load0', 'h.dispatch', 'fut.then.recheck', 'fut.chain.load'))
+    for c, p, o in kept:
+        per = {}
+        for t, st in p['steps']:
+            per.setdefault(t, []).append(st)
+        for seq in per.values():
+            for a, b in zip(seq, seq[1:] + [-1]):
+                if a == i_l0 and b == i_disp: tim['after_ready_direct'] += 1
+                if a == i_re and b == i_cl: tim['pushed_then_recheck_saw_ready_and_drained'] += 1
+                if a == i_re and b != i_cl: tim['pushed_before_ready'] += 1
+    ctx.cov['then_registration_timing'] = tim
     ctx.cov['mode_histogram'] = {m: sum(1 for c, _, _ in kept if c['mode'] == m) for m in ('ls', 'im', 'nt')}
     ctx.sample({'case': fc.line_of(cases[0])[:200], 'impl': outs[0][:400]})
     ctx.phase('correspond')
